@@ -426,7 +426,7 @@ def run_open(spec, rec):
         for seg, rows in sorted(tables.segments(v).items()):
             for row in rows or []:
                 if row.ok and row.datatype == 'varies' and row.card[1] != 0 and row.num:
-                    for comps in ([1], [2], [3], [1, 3], [2, 5], [1, 2, 3], [4, 9]):
+                    for comps in ([1], [2], [3], [1, 3], [2, 5], [1, 2, 3], [4, 9], [9, 12], [2, 10, 11], [1, 10], [14]):
                         check_varies(core, parser, v, row, comps, 2, rec)
     rec.sample({'kind': 'open', 'example': 'Segment(ZZ1).zz1_37 = v37 -> 37 separators'})
 
